@@ -259,6 +259,23 @@ func checkC10(P *core.Program, R *core.Report) {
 	}
 	checkOpenReach(P, R)
 	checkThirdPartyEntries(P, R)
+	// the amm pool a third-party close is judged on (LP price, stop-loss, health) is the stored
+	// one: not a copy memoised across the closes of one message or block
+	closeSubjects := map[*ssa.Function]bool{}
+	for fn := range P.Reach(P.FindRoots().Consensus()) {
+		if k := P.Key(fn); strings.HasPrefix(k, "x/leveragelp/") || strings.HasPrefix(k, "x/perpetual/") {
+			closeSubjects[fn] = true
+		}
+	}
+	checkRecordFreshness(P, R, freshSpec{
+		Rule: "C10-ammpool-fresh", Load: "x/amm/keeper.Keeper.GetPool", Store: "x/amm/keeper.Keeper.SetPool", Subjects: closeSubjects,
+		Tolerated: map[string]string{},
+		Sinks: map[string][]int{
+			"x/leveragelp/keeper.Keeper.CheckAndLiquidateUnhealthyPosition": {4},
+			"x/leveragelp/keeper.Keeper.CheckAndCloseAtStopLoss":            {4},
+			"x/perpetual/keeper.Keeper.CheckAndLiquidateUnhealthyPosition":  {4},
+		},
+	})
 	checkHealthFresh(P, R)
 }
 
